@@ -238,6 +238,49 @@ func factsReceive() {
 	sort.Strings(setCalls)
 	emitList("capnpMarshalHistogramSets", "pkg/receive/writecapnp/marshal.go marshalHistogram: members it sets", setCalls)
 
+	// C22/C23: how the Cap'n Proto client reports a peer's failure to the fan-out
+	cl := parse("pkg/receive/writecapnp/client.go")
+	lastRet := "unknown"
+	if rw := fn(cl, "RemoteWriteClient", "RemoteWrite"); rw != nil && rw.Body != nil && len(rw.Body.List) > 0 {
+		lastRet = text(rw.Body.List[len(rw.Body.List)-1])
+	}
+	emitStr("capnpClientFallback", "pkg/receive/writecapnp/client.go RemoteWrite: the answer for an RPC error that is neither deadline nor cancellation", lastRet)
+	var internalRets []string
+	if wr := fn(cl, "RemoteWriteClient", "writeWithReconnect"); wr != nil && wr.Body != nil {
+		ast.Inspect(wr.Body, func(n ast.Node) bool {
+			cc, ok := n.(*ast.CaseClause)
+			if !ok || len(cc.List) != 1 || text(cc.List[0]) != "WriteError_internal" || len(cc.Body) == 0 {
+				return true
+			}
+			internalRets = append(internalRets, text(cc.Body[len(cc.Body)-1]))
+			return true
+		})
+	}
+	emitList("capnpClientInternal", "pkg/receive/writecapnp/client.go writeWithReconnect: how case WriteError_internal ends", internalRets)
+	sv := parse("pkg/receive/capnp_server.go")
+	var serverMap []string
+	if wr := fn(sv, "CapNProtoHandler", "Write"); wr != nil && wr.Body != nil {
+		ast.Inspect(wr.Body, func(n ast.Node) bool {
+			cc, ok := n.(*ast.CaseClause)
+			if !ok || len(cc.Body) == 0 {
+				return true
+			}
+			for _, st := range cc.Body {
+				for _, c := range calls(st, "SetError") {
+					if len(c.Args) == 1 {
+						k := "default"
+						if len(cc.List) == 1 {
+							k = text(cc.List[0])
+						}
+						serverMap = append(serverMap, k+"=>"+text(c.Args[0]))
+					}
+				}
+			}
+			return true
+		})
+	}
+	emitList("capnpServerErrorMap", "pkg/receive/capnp_server.go CapNProtoHandler.Write: cause => WriteError", serverMap)
+
 	// C25: how readHistogram reads the zero count
 	rh := fn(parse("pkg/receive/writecapnp/write_request.go"), "Request", "readHistogram")
 	var zc []string
